@@ -410,6 +410,12 @@ def gen_cases(rng, tier):
     cases.extend(gen_e2e(rng, n_e2e))
     cases.extend(gen_quote(rng, n_quote))
     for _ in range(n_act // 10):
+        # `_process_start_flow` with an INJECTED parser behaviour (the parser is an oracle: any exception, any list of flows)
+        fid = "dyn-" + UUID[:8]
+        inj = rng.choice([{"raise": rng.choice(["ValueError", "AssertionError", "KeyError", "IndexError", "TypeError", "RecursionError", "Exception", "AttributeError", "UnicodeDecodeError"])},
+                          {"flows": rng.choice([[], [fid], [fid], [fid, fid], ["other"], [fid, "other"], ["other", fid], [fid + " "], ["", fid]])}])
+        cases.append({"kind": "act", "task": "ms_start_flow", "prompts": "instruct", "s": rng.choice(["bot express greeting", "bot inform x\nbot y", g_line(rng)]), "inject": inj})
+    for _ in range(n_act // 10):
         cases.append({"kind": "act", "task": "gen_events", "prompts": "instruct", "s": "", "script": g_step_script(rng)})
     return [c for c in cases if c["kind"] != "act" or len(c["s"]) <= 4000]
 
@@ -422,8 +428,15 @@ def g_step_script(rng):
         return [rng.choice(["X", "X", "X", "Listen", "hide_prev_turn"]) for _ in range(rng.choice([0, 1, 1, 2, 3]))]
     n = rng.choice([0, 1, 2, 3, 5, 8])
     keys = sorted(rng.sample(range(12), n))
-    return {"base": rng.choice([1, 2, 3]), "table": [[k, outcome()] for k in keys],
-            "default": rng.choice(["raise", [], ["X"], ["X"], ["Listen"], ["X", "X", "X"], ["hide_prev_turn"], ["X", "Listen"]])}
+    sc = {"base": rng.choice([1, 2, 3]), "table": [[k, outcome()] for k in keys],
+          "default": rng.choice(["raise", [], ["X"], ["X"], ["Listen"], ["X", "X", "X"], ["hide_prev_turn"], ["X", "Listen"]])}
+    if rng.random() < 0.35:
+        # a long run that ends (or not) right at the 100-event safety valve: the boundary of `len(new_events) > 100`
+        sc["default"] = rng.choice([["X"], ["X"], ["X", "X"], ["X", "X", "X"]])
+        sc["table"] = [[k, o] for k, o in sc["table"] if o != "raise" and "Listen" not in o and "hide_prev_turn" not in o and o != []]
+        for k in sorted(rng.sample(range(94, 106), rng.choice([1, 2, 3]))):
+            sc["table"].append([k, rng.choice([["Listen"], ["X", "Listen"], ["hide_prev_turn"], [], "raise"])])
+    return sc
 
 
 def g_botmsg(rng):
@@ -755,10 +768,19 @@ def gen_impl(case, llm):
         seen = {}
         orig = RT.parse_colang_file
 
+        inject = case.get("inject")
+
         def spy(filename, content, *a, **k):
             seen["src"] = content
             seen["calls"] = seen.get("calls", 0) + 1
-            r = orig(filename, content, *a, **k)
+            if inject is not None:
+                if "raise" in inject:
+                    exc = {"UnicodeDecodeError": lambda: UnicodeDecodeError("utf-8", b"x", 0, 1, "injected")}.get(inject["raise"], lambda: getattr(__import__("builtins"), inject["raise"])("injected"))()
+                    raise exc
+                proto = orig("dynamic.co", content="define flow proto:\n  bot express greeting")["flows"][0]
+                r = {"flows": [dict(__import__("copy").deepcopy(proto), id=i) for i in inject["flows"]]}
+            else:
+                r = orig(filename, content, *a, **k)
             seen["flows"] = [f.get("id") for f in r.get("flows", [])]
             return r
 
@@ -1211,6 +1233,8 @@ def nontrivial(case, obs):
     k = case["kind"]
     if k == "act" and case.get("task") == "gen_events":
         return bool(case["script"]["table"]) or case["script"]["default"] != ["Listen"]
+    if k == "act" and case.get("inject") is not None:
+        return True
     if k in ("fn", "act", "botmsg"):
         s = case["s"]
         return "\n" in s or any(p.strip() and p in s for p in PREFIXES) or any(t in s for t in TEMPLATES) or "\"" in s
@@ -1239,6 +1263,8 @@ def tags(case, obs):
             t.append("literal_eval:" + obs["lit"] + "->" + obs["wrapper"])
         if "gen_events" in obs:
             t.append("gen_events:" + obs["gen_events"]["res"])
+        if case.get("inject") is not None:
+            t.append("parser-injected:" + ("raise" if "raise" in case["inject"] else "flows" + str(len(case["inject"]["flows"]))))
         for key, v in obs.items():
             if isinstance(v, dict) and "err" in v:
                 t.append(f"{key}:err:{v['err']}")
